@@ -419,7 +419,8 @@ Definition adm_splice (c : cfg) (w : world) (vid : nat) (sb eb : bound) (n : N) 
     end.
 Definition admissible (c : cfg) (w : world) (o : op) : Prop :=
   match o with
-  | OSplice _ v sb eb _ _ _ _ _ cl => adm_splice c w v sb eb cl
+  | OSplice _ v sb eb pat _ _ _ _ cl =>
+      adm_splice c w v sb eb cl /\ forall d, In d (pat_dsts pat) -> adm_many c w d (pat_count pat d)
   | OSpareWrite _ v k => forall vv, get_vec v w = Some vv -> vlen vv + k <= vcap vv
   | OWithCapacity _ bk n => adm_withcap c bk n
   | OPush _ v _ | OInsert _ v _ _ => adm_vec c w v
